@@ -991,3 +991,5 @@ Proof.
   - (* Crash *) noopC.
 Qed.
 End StepC.
+
+Print Assumptions HC_step_thr.
